@@ -14,6 +14,7 @@ import JsonbModel.Driver.JsonOps
 import JsonbModel.Driver.SelectOps
 import JsonbModel.Driver.SerdeOps
 import JsonbModel.Driver.TextFnOps
+import JsonbModel.Driver.ChainOps
 
 namespace Jsonb.Driver
 open Jsonb.Wire
@@ -79,6 +80,9 @@ def step (line : String) : String :=
                     | none =>
                       match textFnStep req with
                       | some r => r
-                      | none => badReq
+                      | none =>
+                        match chainStepD req with
+                        | some r => r
+                        | none => badReq
 
 end Jsonb.Driver
